@@ -4,6 +4,9 @@ import engine
 from core import Infra
 
 
+REPLAY = ("TraceSearch", engine.TRACE_CFG % '"C02"')
+
+
 def signature(ev):
     kinds = sorted(set(k for k, a in zip(ev.get("repkinds", []), ev.get("reps", [])) if a != ev.get("mainans")))
     return "C02|corpus=%s|nlp=%s|path=%s|%s" % (ev["sc"]["corpus"], int(ev["sc"]["nlp"]), ev["path"].replace("cached-", ""), "+".join(kinds) or "suggestions")
